@@ -255,6 +255,79 @@ pub fn families() -> Vec<Box<dyn Family>> {
             },
         ),
         family(
+            "byte_sized_items",
+            "items of ONE BYTE (size_of == 1): (a) two unrelated byte strings of 300..900 items (large D), (b) near-identical byte strings of 1000..4000 items with up to 256 distinct values and <= 3 edits (small D), (c) identical ones x {Myers, Patience} - the work bound must not depend on the size of the item type",
+            false,
+            1,
+            |cfg| cfg.n(60, 600),
+            |idx, cfg, out| {
+                use crate::mon::CountingByte;
+                let mut rng = Rng::for_case(cfg.seed, "c19.byte_items", idx);
+                let (a, b): (Vec<u8>, Vec<u8>) = match idx % 3 {
+                    0 => {
+                        let (n, m) = if cfg.tiny { (8, 9) } else { (rng.range(300, 900), rng.range(300, 900)) };
+                        ((0..n).map(|i| (i % 100) as u8).collect(), (0..m).map(|i| 128 + (i % 100) as u8).collect())
+                    }
+                    k => {
+                        let n = if cfg.tiny { 12 } else { rng.range(1000, 4000) };
+                        let alpha = *rng.pick(&[4usize, 50, 256]);
+                        let a: Vec<u8> = (0..n).map(|_| rng.below(alpha) as u8).collect();
+                        let mut b = a.clone();
+                        if k == 1 {
+                            for _ in 0..1 + rng.below(3) {
+                                let i = rng.below(b.len());
+                                match rng.below(3) {
+                                    0 => b[i] = b[i].wrapping_add(1 + rng.below(7) as u8),
+                                    1 => {
+                                        b.remove(i);
+                                    }
+                                    _ => b.insert(i, rng.below(alpha) as u8),
+                                }
+                            }
+                        }
+                        (a, b)
+                    }
+                };
+                out.sample(|| format!("N={} M={} one-byte items (shape {})", a.len(), b.len(), idx % 3));
+                out.nontrivial(&("bytes", a.len(), b.len(), idx));
+                out.count("byte_item_cases");
+                let ca: Vec<CountingByte> = a.iter().map(|x| CountingByte(*x)).collect();
+                let cb: Vec<CountingByte> = b.iter().map(|x| CountingByte(*x)).collect();
+                for alg in [Algorithm::Myers, Algorithm::Patience] {
+                    for entry in 0..2 {
+                        cmp_reset();
+                        out.eval();
+                        let r = guard(|| {
+                            if entry == 0 {
+                                let mut c = similar::algorithms::Capture::new();
+                                similar::algorithms::diff(alg, &mut c, &ca[..], 0..ca.len(), &cb[..], 0..cb.len()).unwrap();
+                                c.into_ops()
+                            } else {
+                                similar::capture_diff_slices(alg, &ca[..], &cb[..])
+                            }
+                        });
+                        let cmps = cmp_count();
+                        match r {
+                            Err(p) => out.violation("panic", format!("diff of byte items panicked: {}", p)),
+                            Ok(ops) => {
+                                let d: u64 = ops.iter().map(|op| if op.tag() == similar::DiffTag::Equal { 0 } else { (op.old_range().len() + op.new_range().len()) as u64 }).sum();
+                                let (n, m) = (a.len() as u64, b.len() as u64);
+                                let bound = FACTOR.saturating_mul(n + m + 1).saturating_mul(d + 1);
+                                out.max(&format!("comparisons_per_(N+M+1)(D+1).{}.byte_sized_items", alg_name(alg)), cmps as f64 / ((n + m + 1) * (d + 1)) as f64);
+                                out.count_n("comparisons_counted", cmps);
+                                if cmps > bound {
+                                    out.violation(
+                                        "work.exceeds_bound",
+                                        format!("{} on ONE-BYTE items: {} comparisons for N={} M={} D={}: more than {}*(N+M+1)*(D+1) = {} | alg={} old={} new={}", ["algorithms::diff", "capture_diff_slices"][entry], cmps, n, m, d, FACTOR, bound, alg_name(alg), fmt_seq(&a), fmt_seq(&b)),
+                                    );
+                                }
+                            }
+                        }
+                    }
+                }
+            },
+        ),
+        family(
             "coarse_hash_items",
             "Myers only needs PartialEq: near-identical inputs (2000..20000 items, <= 3 edits) of an item type whose legal Hash is COARSE (only value % 3 is hashed) through algorithms::diff, diff_slices and capture_diff_slices - the work must not depend on how well the items hash (Patience is not run here: its unique-item table legitimately hashes the items)",
             false,
